@@ -16,6 +16,7 @@ package redis
 
 import (
 	"errors"
+	"math"
 	"strconv"
 	"strings"
 	"time"
@@ -673,6 +674,11 @@ func (server *Server) registerCoreExecutors() {
 			opt.MINEXCLUSIVE = startEx
 			opt.MAXEXCLUSIVE = stopEx
 			return server.userCommandHandler.ZRangeByScore(conn, key, start, stop, opt)
+		}
+
+		// Rank ranges take integer indices only.
+		if startEx || stopEx || start != math.Trunc(start) || stop != math.Trunc(stop) || math.IsInf(start, 0) || math.IsInf(stop, 0) {
+			return nil, newInvalidArgumentError(cmd, "start/stop", errors.New("value is not an integer"))
 		}
 
 		return server.userCommandHandler.ZRange(conn, key, int(start), int(stop), opt)
